@@ -600,19 +600,31 @@ def rule_h(ctx, ix):
     dimensions they depend on.  Both collections are filled once per input, inside the loop: dimensions collected from the last
     input only make the buffer constant along axes it depends on."""
     R = 'C16.h'
-    ctx.describe(R, 'translate_pixel collects values and dimensions of every input of a link (both inside the loop)', floor=2)
+    ctx.describe(R, 'translate_pixel collects values and dimensions of every input of a link (both inside the loop)', floor=1)
     f = ix.func('glue.core.fixed_resolution_buffer.translate_pixel')
+    # all results kept by a comprehension over the inputs: `translated = [translate_pixel(...) for cid in link._from]`
+    for c in ast.walk(f.node):
+        if isinstance(c, (ast.ListComp, ast.GeneratorExp)) and any(isinstance(x, ast.Call) and call_name(x) == 'translate_pixel' for x in ast.walk(c.elt)):
+            ctx.ob(R, '%s (comprehension)' % f.construct, 'the result of every input is kept', not c.generators[0].ifs,
+                   detail='translate_pixel translates only a selection of the inputs of the link (`%s`)' % unparse(c)[:100], where=where(f, c))
+            return
     loops = [lp for lp in ast.walk(f.node) if isinstance(lp, ast.For) and any(call_name(c) == 'translate_pixel' for c in calls_in(lp))]
     if len(loops) != 1:
         raise AnalysisError('translate_pixel: the loop over the inputs of the link is no longer recognised')
     lp = loops[0]
     got = [st for st in lp.body if isinstance(st, ast.Assign) and isinstance(st.value, ast.Call) and call_name(st.value) == 'translate_pixel']
-    if len(got) != 1 or not isinstance(got[0].targets[0], ast.Tuple):
-        raise AnalysisError('translate_pixel: the recursive call is no longer unpacked into (values, dimensions)')
-    names = [unparse(t) for t in got[0].targets[0].elts]
+    if len(got) != 1:
+        raise AnalysisError('translate_pixel: the recursive call is no longer assigned inside the loop')
+    t0 = got[0].targets[0]
+    if isinstance(t0, ast.Tuple) and len(t0.elts) == 2:
+        names = [unparse(t) for t in t0.elts]
+    elif isinstance(t0, ast.Name):
+        names = ['%s[0]' % t0.id, '%s[1]' % t0.id]
+    else:
+        raise AnalysisError('translate_pixel: the result of the recursive call is kept in a form the checker does not know')
     for nm in names:
         inside = [c for c in calls_in(lp) if call_name(c) in ('append', 'extend', 'update', 'add') and any(unparse(a) == nm for a in c.args)]
-        aug = [st for st in ast.walk(lp) if isinstance(st, ast.AugAssign) and nm in [x.id for x in ast.walk(st.value) if isinstance(x, ast.Name)]]
+        aug = [st for st in ast.walk(lp) if isinstance(st, ast.AugAssign) and any(unparse(x) == nm for x in ast.walk(st.value))]
         ctx.ob(R, '%s %s' % (f.construct, nm), '`%s` of every input is collected inside the loop' % nm, bool(inside or aug),
                detail='translate_pixel no longer collects `%s` inside its loop over the inputs of the link: only what the last input '
                       'returned is kept, so for a link with several inputs the buffer ignores the pixel dimensions (or values) of the '
